@@ -63,9 +63,11 @@ type recorder struct {
 	pos    int
 	call   int
 	reads  []read
-	// fault plan: the failAt-th Read of call failCall (counted from 1) fails once with an error and delivers nothing
+	// fault plan: from the failAt-th Read of call failCall (counted from 1) on, failFor consecutive Reads fail with an
+	// error and deliver nothing (1: a hiccup; 3: a retry loop runs out; a large number: the source is gone for the
+	// rest of the exchange)
 	failCall, failAt, seenInCall int
-	failed                       bool
+	failFor, failedN             int
 }
 
 func newRecorder(seed uint64) *recorder {
@@ -95,8 +97,8 @@ func (r *recorder) Read(p []byte) (int, error) {
 	}
 	if r.failCall != 0 && r.call == r.failCall {
 		r.seenInCall++
-		if r.seenInCall == r.failAt && !r.failed {
-			r.failed = true
+		if r.seenInCall >= r.failAt && r.failedN < r.failFor {
+			r.failedN++
 			return 0, errInjected
 		}
 	}
@@ -110,10 +112,10 @@ var errInjected = fmt.Errorf("verif: the system random source fails (injected)")
 
 func (r *recorder) setCall(c int) { r.mu.Lock(); r.call = c; r.mu.Unlock() }
 
-// failRead arms the fault plan: the at-th Read made during call c fails
-func (r *recorder) failRead(c, at int) {
+// failRead arms the fault plan: from the at-th Read made during call c on, n consecutive Reads fail
+func (r *recorder) failRead(c, at, n int) {
 	r.mu.Lock()
-	r.failCall, r.failAt, r.seenInCall, r.failed = c, at, 0, false
+	r.failCall, r.failAt, r.seenInCall, r.failFor, r.failedN = c, at, 0, n, 0
 	r.mu.Unlock()
 }
 
